@@ -71,7 +71,14 @@ static void svd(vh::Rng & r, int type, vh::Out & out)
     // a subset that is still not collinear: keep the first two points of a non-collinear triple; simplest: keep all but a few
     keep = std::max(3, n - (int)r.range(0, n / 3));
   }
-  for (int k = 0; k < n; ++k) {cs.push_back(Correspondence((size_t)order[k], (size_t)tpos[order[k]]));}
+  {
+    const int ctor = (int)r.range(0, 2);
+    for (int k = 0; k < n; ++k) {
+      const size_t si = (size_t)order[k], ti = (size_t)tpos[order[k]];
+      cs.push_back(ctor == 0 ? Correspondence(si, ti) : ctor == 1 ? Correspondence(si, ti, (double)r.range(0, 9)) :
+        Correspondence(si, ti, (double)r.range(0, 9), (double)r.range(1, 20) / 20.0));
+    }
+  }
   if (keep < n) {
     std::vector<Correspondence> sub(cs.begin(), cs.begin() + keep);
     // make sure the kept sources are not collinear; otherwise keep everything
@@ -233,15 +240,17 @@ static void generic(vh::Rng & r, bool svdPart, bool p2pPart, vh::Out & out)
   }
   if (svdPart) {
     int n = (int)r.range(4, r.coin(1, 5) ? 500 : 40);
-    int shape = (int)r.range(0, 3);                                    // generic, coplanar (3D), noisy, a small cluster far from the origin
+    int shape = (int)r.range(0, 4);                                    // generic, coplanar (3D), noisy, a small cluster far from the origin, thin AND noisy
     std::vector<VecD> src(n), tgt(n);
     VecD far = VecD::Zero();
     if (shape == 3) {for (size_t a = 0; a < DIM; ++a) {far[a] = (sizeof(S) == 4 ? 300.0 : 1.0e5) * (0.3 + 0.7 * u());}}
     for (int k = 0; k < n; ++k) {
       for (size_t a = 0; a < DIM; ++a) {src[k][a] = shape == 3 ? far[a] + u() : u() * 20;}
       if (shape == 1 && DIM == 3) {src[k][DIM - 1] = 1.5;}
+      if (shape == 4) {src[k][DIM - 1] = 1.5;}                          // a plane (3D) / a line (2D) ...
       tgt[k] = R * src[k] + t;
       if (shape == 2) {for (size_t a = 0; a < DIM; ++a) {tgt[k][a] += u() * 0.05;}}
+      if (shape == 4) {for (size_t a = 0; a < DIM; ++a) {tgt[k][a] += u() * 0.05; src[k][a] += u() * 0.05;}}     // ... with noise on both sets
     }
     // the target set is stored in its own order and may hold extra, unmatched points; the correspondence list is a
     // permutation or a subset of the pairs (identity pairs for the aligned overloads)
@@ -264,7 +273,13 @@ static void generic(vh::Rng & r, bool svdPart, bool p2pPart, vh::Out & out)
     int keep = aligned ? n : std::max(4, n - (int)r.range(0, n / 2));
     std::vector<int> order(n); for (int k = 0; k < n; ++k) {order[k] = k;}
     if (!aligned) {for (int k = n - 1; k > 0; --k) {std::swap(order[k], order[(size_t)r.range(0, k)]);}}
-    for (int k = 0; k < keep; ++k) {cs.push_back(Correspondence((size_t)order[k], (size_t)tpos[order[k]]));}
+    // correspondences as a matcher hands them over: with or without a squared distance and a confidence weight (the estimator is unweighted)
+    const int ctor = (int)r.range(0, 2);
+    for (int k = 0; k < keep; ++k) {
+      const size_t si = (size_t)order[k], ti = (size_t)tpos[order[k]];
+      cs.push_back(ctor == 0 ? Correspondence(si, ti) : ctor == 1 ? Correspondence(si, ti, 0.25 + u() * u()) :
+        Correspondence(si, ti, 0.25 + u() * u(), 0.05 + 0.95 * std::fabs(u())));
+    }
     // independent Kabsch / Umeyama solution (double) over the matched pairs, on the values the estimator actually sees
     VecD ms = VecD::Zero(), mt = VecD::Zero();
     for (auto & c : cs) {for (size_t a = 0; a < DIM; ++a) {ms[a] += (double)ps[c.sourcePointIndex][a]; mt[a] += (double)pt[c.targetPointIndex][a];}}
@@ -290,7 +305,7 @@ static void generic(vh::Rng & r, bool svdPart, bool p2pPart, vh::Out & out)
     res.push_back(units(e1)); res.push_back(units(e2));                                            // agrees with the independent Kabsch solution
     res.push_back(units((Hl * Hl.transpose() - MatD::Identity()).cwiseAbs().maxCoeff()));          // orthonormal
     res.push_back(units(Hl.determinant() - 1));                                                    // proper
-    if (shape != 2) {                                                                              // noise free: the motion itself
+    if (shape != 2 && shape != 4) {                                                                // noise free: the motion itself
       double e3 = 0; for (size_t i = 0; i < DIM; ++i) {for (size_t j = 0; j < DIM; ++j) {e3 = std::max(e3, std::fabs((double)H(i, j) - R(i, j)));}}
       // float inputs are rounded versions of the exact targets: the recovered motion is exact up to that rounding
       res.push_back(units(sizeof(S) == 4 ? e3 / 50.0 : e3 / (1.0 + far.norm() / 100.0)));
